@@ -1423,7 +1423,7 @@ func (w *World) evalScanPredicates(fn *ssa.Function, sl *ssa.Slice) (first, rest
 				loop = x
 			}
 		case *ast.IfStmt:
-			if loop != nil && guard == nil && endsInReturn(x.Body) && mentionsByteClass(x.Cond) {
+			if loop != nil && guard == nil && endsInReturn(x.Body) && (mentionsByteClass(x.Cond) || w.mentionsBytePredicateCall(info, x.Cond)) {
 				guard = x
 			}
 		}
@@ -2020,8 +2020,15 @@ func ruleResolvingWriter(w *World, r *Report) {
 	valid := w.PkgFunc("util", "ToValidRune")
 	n := 0
 	helperChecked := map[*ssa.Function]bool{}
+	var curRaw *ssa.Function // the escaping sink of the writer type under examination
+	inProgress := map[*ssa.Function]bool{}
 	var checkHelper func(fn *ssa.Function) (bool, string, ssa.Instruction)
 	checkHelper = func(fn *ssa.Function) (bool, string, ssa.Instruction) {
+		if inProgress[fn] || len(inProgress) > 4 {
+			return false, "hands the writer on through more than four levels of helpers", nil
+		}
+		inProgress[fn] = true
+		defer delete(inProgress, fn)
 		var wp *ssa.Parameter
 		for _, p := range fn.Params {
 			if sa.isBufWriter(p.Type()) {
@@ -2040,16 +2047,35 @@ func ruleResolvingWriter(w *World, r *Report) {
 				com := c.Common()
 				if !com.IsInvoke() || com.Value != ssa.Value(wp) {
 					for _, a := range com.Args {
-						if a == ssa.Value(wp) {
-							return false, "hands the writer to another function", ins
+						if a != ssa.Value(wp) {
+							continue
 						}
+						// a part of the resolving writer split off into a function of its own obeys the same rules
+						cal := com.StaticCallee()
+						if cal != nil && cal == curRaw {
+							break
+						}
+						if cal != nil && w.InModule(cal) && cal.Blocks != nil {
+							ok, why, at := checkHelper(cal)
+							if !ok {
+								if at == nil {
+									at = ins
+								}
+								return false, "hands the writer to " + w.FnKey(cal) + ", which " + why, at
+							}
+							break
+						}
+						return false, "hands the writer to a function that cannot be resolved", ins
 					}
 					continue
 				}
 				switch com.Method.Name() {
-				case "Write":
+				case "Write", "WriteString":
+					if d := sa.Classify(com.Args[0]); d.Kind == DConst {
+						continue
+					}
 					// the result of util.EscapeHTMLByte, possibly kept in a variable that is nil otherwise
-					okArg := escByte != nil
+					okArg := escByte != nil && com.Method.Name() == "Write"
 					for _, leaf := range phiLeaves(com.Args[0]) {
 						if isNilConst(leaf) {
 							continue
@@ -2135,6 +2161,7 @@ func ruleResolvingWriter(w *World, r *Report) {
 			}
 		}
 		key := w.FnKey(fn)
+		curRaw = raw
 		if wp == nil {
 			r.Unknown(key, w.FnPos(fn), "no BufWriter parameter")
 			continue
